@@ -264,6 +264,27 @@ class Failure:
         return {"kind": self.kind, "what": self.what, "detail": self.detail, "key": self.key}
 
 
+def library_failure(e, props, what="a valid call"):
+    """An exception that escaped from the library while the harness was making a *valid* call.
+
+    Every history a check generates consists of valid calls (malformed ones are injected and caught separately), so
+    an exception raised inside ribs is a failing input for the property under check, not a harness error.  Returns a
+    Failure, or None when no frame of the traceback lies in the library (then it is the harness that is broken).
+    """
+    import traceback
+    if isinstance(e, Infra):
+        return None
+    tb = traceback.extract_tb(e.__traceback__)
+    frames = [fr for fr in tb if "/ribs/" in fr.filename]
+    if not frames:
+        return None
+    fr = frames[-1]
+    props = sorted(props)
+    label = props[0] if len(props) == 1 else "/".join(props)
+    return Failure("oracle", f"[{label}] {what} raised {type(e).__name__}: {str(e)[:200]} "
+                   f"(at ribs/{fr.filename.split('/ribs/')[-1]}:{fr.lineno} in {fr.name})")
+
+
 def jsonable(x):
     import numpy as np
     if isinstance(x, dict):
